@@ -96,6 +96,8 @@ class ScriptedProvider(ModelLoader):
     def load_models(self, model, encoding="utf-8"):
         fn = getattr(model, "_tx_filename", None)
         self.ctx.ev("parsed", os.path.basename(fn) if fn else "<str>")
+        if not hasattr(type(model), "_tx_attrs"):
+            return  # a primitive root (abstract root rule with a match alternative): nothing to load or snapshot
         if self.on_parsed:
             self.on_parsed(model)
         if isinstance(self.base, ModelLoader):
